@@ -672,6 +672,69 @@ def check_tgen(case):
 
 
 # ------------------------------------------------------------------------------------------------
+# constant constructors and the ndarray helpers of the module
+# ------------------------------------------------------------------------------------------------
+
+def check_ctor(case):
+    t = K.T()
+    shape = tuple(case["shape"])
+    cls = {"C": t.CanonicalTensor, "T": t.TuckerTensor}[case["cls"]]
+    want = np.ones(shape) if case["val"] == "ones" else np.zeros(shape)
+    try:
+        X = cls.ones(shape) if case["val"] == "ones" else cls.zeros(shape)
+        got = np.asarray(X.asarray(), dtype=float)
+    except Exception as e:
+        return [(K.exc_key(e), "%s.%s(%r) raised %r" % (cls.__name__, case["val"], shape, e))], None
+    if tuple(X.shape) != shape or got.shape != shape or not np.array_equal(got, want):
+        return [("ctor:%s:%s:value" % (case["cls"], case["val"]), "%s.%s(%r) does not expand to the constant tensor"
+                 % (cls.__name__, case["val"], shape))], None
+    return [], ("ctor", case["cls"], case["val"])
+
+
+def check_dense(case):
+    """modek_tprod / apply_tprod / outer / array_outer / fro_norm on plain ndarrays"""
+    import scipy.sparse
+    import scipy.sparse.linalg
+    t = K.T()
+    shape = tuple(case["shape"])
+    X = K.payload(case["seed"], "denseX", shape)
+    X0 = X.copy()
+    probs = []
+    n = 0
+    try:
+        for k in range(len(shape)):
+            for m in (1, shape[k], shape[k] + 1):
+                B = K.payload(case["seed"], "denseB:%d:%d" % (k, m), (m, shape[k]))
+                want = R.mode_product(X0, k, B)
+                for nm, Bk in (("dense", B), ("sparse", scipy.sparse.csr_matrix(B)),
+                               ("linop", scipy.sparse.linalg.aslinearoperator(B))):
+                    n += 1
+                    got = t.modek_tprod(Bk, k, X)
+                    if got.shape != want.shape or not np.array_equal(got, want):
+                        probs.append(("dense:modek_tprod:%s" % nm, "modek_tprod(%s %dx%d, %d, X%r) differs from the mode product"
+                                      % (nm, m, shape[k], k, shape)))
+        vecs = [K.payload(case["seed"], "densev:%d" % k, (nk,)) for k, nk in enumerate(shape)]
+        n += 2
+        if not np.array_equal(t.outer(*vecs), R.outer_all(vecs)):
+            probs.append(("dense:outer", "outer() of %d vectors differs from the outer product" % len(vecs)))
+        parts = [X0, vecs[0]] if len(shape) < 3 else [X0[0], vecs[0], X0[:, 0, 0]]
+        if not np.array_equal(t.array_outer(*parts), R.outer_all(parts)):
+            probs.append(("dense:array_outer", "array_outer() differs from the outer product"))
+        if abs(t.fro_norm(X) - fro(X0)) > 1e-12 * max(fro(X0), 1.0):
+            probs.append(("dense:fro_norm", "fro_norm of an ndarray is not its Frobenius norm"))
+    except Exception as e:
+        probs.append(("dense:" + K.exc_key(e), "ndarray helper on shape %r raised %r" % (shape, e)))
+    if not np.array_equal(X, X0):
+        probs.append(("dense:mutation", "an ndarray helper changed its argument"))
+    seen, out = set(), []
+    for k, m in probs:
+        if k not in seen:
+            seen.add(k)
+            out.append((k, m))
+    return out, n
+
+
+# ------------------------------------------------------------------------------------------------
 # case enumeration
 # ------------------------------------------------------------------------------------------------
 
@@ -774,6 +837,13 @@ def cases(tier, seed):
     for shape in ((3,), (2, 2), (2, 2, 2)):
         for algo in ("grou", "gta"):
             add("greedy", algo=algo, shape=list(shape), fam="zero", r=0, R=2, tol=1e-10, guard=5.0)
+    # constant constructors, ndarray helpers
+    for d in (1, 2, 3):
+        for shape in itertools.product((1, 2, 3), repeat=d):
+            for cls in "CT":
+                for val in ("zeros", "ones"):
+                    add("ctor", shape=list(shape), cls=cls, val=val)
+            add("dense", shape=list(shape))
     # entry generators
     for d in (1, 2, 3):
         for shape in itertools.product((1, 2, 3), repeat=d):
@@ -785,7 +855,8 @@ def cases(tier, seed):
 
 
 CHECKS = {"compress": check_compress, "truncate": check_truncate, "hosvd": check_hosvd, "aca2d": check_aca2d,
-          "aca3d": check_aca3d, "greedy": check_greedy, "als": check_als, "tgen": check_tgen}
+          "aca3d": check_aca3d, "greedy": check_greedy, "als": check_als, "tgen": check_tgen,
+          "ctor": check_ctor, "dense": check_dense}
 
 
 def check(case):
